@@ -89,14 +89,14 @@ def write_evidence(cx, lean, extra_cov):
     }
     # a development run that skipped the Lean part (--skip-lean: seeded-change sweeps) is not evidence for a proof-level
     # claim: its record goes under replays/ (not committed), never over the evidence file
-    edir = os.path.join(ROOT, 'replays', 'skiplean-evidence') if (getattr(cx, 'skip_lean', False) or getattr(cx, 'is_replay', False)) else os.path.join(ROOT, 'evidence')
+    edir = os.path.join(os.environ.get('VERIF_REPLAY_DIR') or os.path.join(ROOT, 'replays'), 'skiplean-evidence') if (getattr(cx, 'skip_lean', False) or getattr(cx, 'is_replay', False)) else os.path.join(ROOT, 'evidence')
     os.makedirs(edir, exist_ok=True)
     with open(os.path.join(edir, f'{cx.pid}.json'), 'w') as f:
         json.dump(ev, f, indent=1, default=str)
 
 
 def write_replay(cx, payload, tag):
-    d = os.path.join(ROOT, 'replays')
+    d = os.environ.get('VERIF_REPLAY_DIR') or os.path.join(ROOT, 'replays')
     os.makedirs(d, exist_ok=True)
     p = os.path.join(d, f'{cx.pid}_{tag}_{cx.seed}.json')
     with open(p, 'w') as f:
@@ -139,6 +139,7 @@ def main():
     ap.add_argument('--tier', default=os.environ.get('VERIF_TIER', 'quick'))
     ap.add_argument('--replay')
     ap.add_argument('--skip-lean', action='store_true', help=argparse.SUPPRESS)
+    ap.add_argument('--no-evidence', action='store_true', help=argparse.SUPPRESS)   # development runs against a scratch copy of the repository
     a = ap.parse_args()
     seed = int(os.environ.get('VERIF_SEED', '0'))
     tier = a.tier if a.tier in ('quick', 'thorough') else 'quick'
@@ -158,7 +159,7 @@ def main():
     except Exception:
         cx.broken.append("extract failed: " + traceback.format_exc()[-500:])
     cx.skip_lean = bool(a.skip_lean)
-    cx.is_replay = bool(a.replay)      # a replay of one recorded case is not a coverage record either
+    cx.is_replay = bool(a.replay) or bool(a.no_evidence)      # a replay of one recorded case is not a coverage record either
     if a.skip_lean:
         lean = leanpart.LeanResult(); lean.build_ok = True
     else:
